@@ -57,6 +57,12 @@ def check_case(case):
         if not core.close(k, exp, 1e-12, 1e-15):
             v("ratio", "%s: kappa=%r but delta/deltaMax=%r/%r -> expected %r" % (seq, k, d, m, exp),
               kappa=k, delta=d, dmax=m, expected=exp)
+    # (e) delta asked AFTER kappa on the same object is still the Das-Pappu delta of the sequence (exact reference)
+    if len(seq) <= 14:
+        ref_d = float(R.delta(pat))
+        if not abs(float(d) - ref_d) <= 1e-12:
+            v("delta-after-kappa", "%s: get_delta() after get_kappa() on the same object is %r, the definition gives %r" % (seq, d, ref_d),
+              delta=d, expected=ref_d)
     # (c) range
     if not (k == -1 or (0.0 <= k <= 1.0)):
         ob = orbit(pat)
